@@ -408,12 +408,16 @@ fn boundary<'t, A>(tree: &Tokenized<'t, A>) -> Result<(), RuleError<'t>>
 where
     A: Spanned,
 {
+    // Tokens are only adjacent within a concatenation. Tokens at the same position (depth and
+    // branch) in the tree may belong to different concatenations, so windows are taken over each
+    // concatenation rather than over the positions of the walk.
     if let Some((left, right)) = walk::forward(tree)
-        .group_by(TokenEntry::position)
-        .into_iter()
-        .flat_map(|(_, group)| {
-            group
-                .map(TokenEntry::into_token)
+        .map(TokenEntry::into_token)
+        .filter_map(Token::as_concatenation)
+        .flat_map(|concatenation| {
+            concatenation
+                .tokens()
+                .iter()
                 .tuple_windows::<(_, _)>()
                 .filter(|(left, right)| left.boundary().and(right.boundary()).is_some())
                 .map(|(left, right)| (*left.annotation().span(), *right.annotation().span()))
